@@ -60,6 +60,18 @@ absolute offset of a fresh stream of the same kind gives (value or exception cla
 where it was, a repeated dereference agrees, dumps() writes the address, the start pointer is unchanged; a null RESULT raises
 NullPointerDereference, a non-null result reached THROUGH null dereferences normally, anything computed from a stream-less pointer raises
 NullPointerDereference.  All seven widths, both byte orders, both readers.
+
+Input kinds of pointer holders (harness/v8_c16.py, buffer_inputs): generated holders of pointers - records (flat, with nested structures, with a
+dynamically sized tail; packed / aligned), pointer typedefs `T *` / `T **` and arrays of pointers read on their own - to 11 target kinds
+(integers of every width, floats, enum, `char` strings, `wchar`, `void`, fixed / dynamic / NUL-terminated-member structures, a structure holding
+a pointer itself), parsed at offset 0 of an image LONGER than the holder (targets behind the holder's own bytes; now and then exactly as long)
+that is handed in as bytes, bytearray, memoryview of bytes, memoryview of a bytearray, a memoryview slice starting inside a larger buffer, and a
+BytesIO as the control, through T(x), T.read(x), T.reads(x) and cs.read(name or type, x).  Every pointer of every holder from every input kind:
+its value is the unsigned integer stored, dereference == parse of the target type (separately loaded copy) at that absolute offset of a fresh
+BytesIO over the bytes of the SAME buffer (value or exception class; null: NullPointerDereference), stable, `T **` and pointer members of a
+dereferenced structure followed one more hop, `(p +- k)` is of p's class and dereferences to the parse at addr +- k, attribute access through
+the pointer, pointer.dumps() and holder.dumps() write the addresses back, a BytesIO stays where the parse left it, the caller's buffer is not
+modified; the first-hop dereferences also go to the Lean model.  All seven widths, both byte orders, both readers.
 """
 from __future__ import annotations
 
@@ -71,6 +83,7 @@ from .. import t5_c16 as t5
 from .. import u4_c16 as u4
 from .. import v4_c16 as v4
 from .. import v6_c16 as v6
+from .. import v8_c16 as v8
 from ..common import A, Case, Result, mkrng, parse_sexp, run_driver, sx
 
 PTRS = dict(s2_ptr.ALL_PTRS)   # uint8 .. uint128, packable and not
@@ -113,6 +126,12 @@ def run(env) -> Result:
                 "result is of the start pointer's class, address == the operators on plain integers, dereference == parse of the target at that offset of a fresh stream (null result: "
                 "NullPointerDereference; non-null result reached through null: normal; no stream: NullPointerDereference), stream position unchanged, stable, dumps() == address, start pointer "
                 "unchanged; 7 widths x {<,>} x {interpreted, compiled}. "
+                "Input kinds of pointer holders: generated holders (flat / nested / dynamically sized records, packed/aligned; pointer typedefs T*, T**; arrays of pointers on their own; "
+                "11 target kinds) at offset 0 of an image longer than the holder, handed in as bytes, bytearray, memoryview(bytes), memoryview(bytearray), a memoryview slice inside a larger "
+                "buffer and a BytesIO (control) through T(x), T.read(x), T.reads(x), cs.read(name, x): every pointer's value == the unsigned integer stored, dereference == parse of the target "
+                "at that absolute offset of the same buffer (value or exception class), stable, T** / pointer members of dereferenced structures followed, (p +- k) of p's class and "
+                "dereferencing to the parse at addr +- k, attribute access, pointer and holder dumps write the addresses back, BytesIO not moved, caller's buffer not modified, model "
+                "compared on the first hop; 7 widths x {<,>} x {interpreted, compiled}. "
                 "distinct = (config, target, address, data); non-trivial = non-null address (failed-dereference family: the access fails with something other than EOFError)")
     dc = impl.dc()
     rnd = mkrng(env["seed"], "c16")
@@ -414,6 +433,9 @@ def run(env) -> Result:
     v4.failed_derefs(dc, env, res, viol, mkrng(env["seed"], "c16-failed-deref"))
     # ---- pointer-arithmetic chains through null / beyond the data / below zero and back: same type, same stream (own PRNG stream)
     v6.arith_chains(dc, env, res, viol, mkrng(env["seed"], "c16-arith-chains"))
+    # ---- input kinds of pointer holders: bytes / bytearray / memoryview (whole, slice) / BytesIO x T(x), T.read, T.reads, cs.read; targets
+    # behind the holder's own bytes (own PRNG stream)
+    v8.buffer_inputs(dc, env, res, viol, mkrng(env["seed"], "c16-buffer-inputs"), lines, metas)
     # pointer inside a fixed-size union (finding F11): the dereference must read the outer stream
     for pname, endian in itertools.product(("uint16", "uint32"), "<>"):
         cs = dc.cstruct(endian=endian, pointer=pname)
